@@ -63,6 +63,11 @@ pub trait Engine: Sync {
     fn isolate(&self) -> bool {
         false
     }
+    /// violations on fixed inputs checked before the search (conformance corpus), with the
+    /// replay case of each, and the number of comparisons made
+    fn fixed_inputs(&self) -> (Vec<(Violation, Value)>, u64) {
+        (vec![], 0)
+    }
     /// independent parts of a case (used to attribute a process death)
     fn split(&self, _case: &Self::Case) -> Vec<Self::Case> {
         vec![]
@@ -524,6 +529,27 @@ pub fn run_check<E: Engine>(e: &E, opts: &Opts) -> Summary {
         }
     }
 
+    // 1b. fixed inputs (the conformance corpus): what the library does on them
+    let (fixed, fixed_evaluated) = e.fixed_inputs();
+    for (v, case) in fixed.iter().filter(|(v, _)| v.property == prop) {
+        match known.matches(v) {
+            Some(id) => {
+                *known_hits.entry(id).or_insert(0) += 1;
+            }
+            None => {
+                let dir = format!("{}/replays", opts.verif_dir);
+                let _ = std::fs::create_dir_all(&dir);
+                let path = format!("{}/{}-corpus-{}.json", dir, prop, fnv(v.detail.as_bytes()) % 100_000);
+                let doc = json!({ "format": 1, "engine": "corpus", "property": prop, "violation": v, "case": case });
+                let _ = std::fs::write(&path, serde_json::to_string_pretty(&doc).unwrap());
+                println!("violation (conformance corpus): class={} {}", v.class, v.detail);
+                println!("VIOLATION property={} replay={}", prop, path);
+                violation_count += 1;
+                exit_code = 1;
+            }
+        }
+    }
+
     // 2. seeded search
     let n = opts.runs;
     let results: Vec<Option<RunOut>> = if e.isolate() {
@@ -677,6 +703,7 @@ pub fn run_check<E: Engine>(e: &E, opts: &Opts) -> Summary {
             "reach_probes_missing": missing_probes,
             "known_finding_hits": known_hits,
             "regression_traces_replayed": regress_replayed,
+            "conformance_corpus_comparisons": fixed_evaluated,
             "components_real": e.components_real(),
             "components_stubbed": e.components_stubbed(),
             "threads": opts.threads,
